@@ -104,7 +104,7 @@ UNITS = {
     },
     'reader_glue': {
         'template': 'reader_glue.vrs', 'backend': 'verus',
-        'serves': ['C06', 'C05'],
+        'serves': ['C06', 'C05', 'C14'],
         'fn_props': {
             r'^Sequences::next$': ['C06', 'C05'],
             r'^Sequences::seq_stats$': ['C06', 'C05', 'C14'],
@@ -237,7 +237,7 @@ PROPS = {
         'not_reached': ['text rendering of the row (format!("{:.6}"), join) and the file/CLI path: see C05', 'pyo3 argument conversion for the binding'],
     },
     'C14': {
-        'units': ['mmap_rows', 'oligo_vec', 'cov_vec', 'count_route'], 'deps': ['kmer_gen', 'posmaps', 'header'], 'replay': 'c14',
+        'units': ['mmap_rows', 'oligo_vec', 'cov_vec', 'count_route', 'reader_glue'], 'deps': ['kmer_gen', 'posmaps', 'header'], 'replay': 'c14',
         'level_text': 'Verus proves (a) every get_unchecked / get_unchecked_mut call site of the oligo accumulation loops (3 copies) against exactly the '
                       'safety precondition of the unchecked access, for every byte string and every k <= 15; (b) for the integer layout statements of vectorise_mmap, lifted '
                       'verbatim: per-row size equals the real row length for every delimiter length, the mapping size is header + records x row length (exact tiling), and each '
